@@ -179,7 +179,38 @@ pub fn run_case(tape: &mut Tape, _tier: Tier, _p: &CaseParams) -> CaseOutcome {
     .filter(|d| d.lang.is_script() && !d.url.starts_with(REGISTRY))
     .map(|d| d.url.clone())
     .collect();
-  let edit_target = if do_reload && !editable.is_empty() {
+  // imported targets that do not exist (missing-module error entries): one
+  // reload in six creates such a module and reloads its specifier, i.e. the
+  // reloaded entry is an error entry
+  let missing_targets: Vec<String> = {
+    let w = &world;
+    let mut v: Vec<String> = w
+      .descs
+      .values()
+      .filter(|d| !d.url.starts_with(REGISTRY))
+      .flat_map(|d| {
+        d.items
+          .iter()
+          .filter(|i| i.attr.is_none() && !i.form.is_source_phase() && i.form != Form::DynamicTpl)
+          .map(move |i| resolve_text(w, &d.url, &i.spec))
+      })
+      .filter(|u| {
+        (u.starts_with("file:///") || u.starts_with("https://") || u.starts_with("http://"))
+          && !u.starts_with(REGISTRY)
+          && (u.ends_with(".ts") || u.ends_with(".js"))
+          && !world.remote.contains_key(u)
+          && !world.cache.contains_key(u)
+      })
+      .collect();
+    v.sort();
+    v.dedup();
+    v
+  };
+  let create_missing =
+    do_reload && !missing_targets.is_empty() && tape.draw(Stream::World, 6) == 5;
+  let edit_target = if create_missing {
+    Some(missing_targets[tape.draw(Stream::World, missing_targets.len() as u32) as usize].clone())
+  } else if do_reload && !editable.is_empty() {
     Some(editable[tape.draw(Stream::World, editable.len() as u32) as usize].clone())
   } else {
     None
@@ -219,7 +250,20 @@ pub fn run_case(tape: &mut Tape, _tier: Tier, _p: &CaseParams) -> CaseOutcome {
   // edited world
   let mut world2 = world.clone();
   let mut edit_desc = String::new();
-  if let Some(t) = &edit_target {
+  if let (true, Some(t)) = (create_missing, &edit_target) {
+    let lang = if t.ends_with(".js") { Lang::Js } else { Lang::Ts };
+    let mut d = ModuleDesc::new(t.clone(), lang);
+    if edit_kind >= 2 && !editable.is_empty() {
+      // the new module imports an existing script module
+      d.items.push(Item::new(
+        Form::SideEffect,
+        editable[edit_pick as usize % editable.len()].clone(),
+      ));
+    }
+    edit_desc = "create the module that was missing".into();
+    world2.add_desc(d);
+    refresh_aliases(&mut world2);
+  } else if let Some(t) = &edit_target {
     let mut d = world2.descs.get(t).unwrap().clone();
     match edit_kind {
       0 => {
@@ -777,6 +821,9 @@ pub fn run_case(tape: &mut Tape, _tier: Tier, _p: &CaseParams) -> CaseOutcome {
       }
     }
     out.count("probe.reload_checked", 1);
+    if create_missing {
+      out.count("probe.reload_of_an_error_entry_whose_module_was_created", 1);
+    }
   }
   if parts.len() >= 2 || edit_target.is_some() {
     out.nontrivial_key = Some(crate::rng::mix(
